@@ -519,6 +519,22 @@ impl Function {
     }
 
     /// Check if the function is a boolean function, i.e. it returns a boolean value.
+    /// Functions that are complete without an argument: the `()` after them is optional
+    pub fn takes_no_argument(&self) -> bool {
+        #[cfg(all(unix, feature = "users"))]
+        if matches!(
+            self,
+            Function::CurrentUid
+                | Function::CurrentUser
+                | Function::CurrentGid
+                | Function::CurrentGroup
+        ) {
+            return true;
+        }
+
+        matches!(self, Function::CurrentDate | Function::Random)
+    }
+
     pub fn is_boolean_function(&self) -> bool {
         #[cfg(unix)]
         if self == &Function::HasXattr {
